@@ -80,33 +80,53 @@ func (a *fieldAggregator) ResultSet() (startTime int64, it series.FieldIterator)
 func (a *fieldAggregator) Aggregate(it series.FieldIterator) {
 	for it.HasNext() {
 		pIt := it.Next()
+		// NOTE: the primitive iterator is the (partial)aggregated result of one agg type, only merge it into the values of same
+		// agg type. if merge it into all agg types(like sum/max of one field), the values of different agg types are mixed.
+		target := -1
+		aggType := pIt.AggType()
+		for idx := range a.aggTypes {
+			if a.aggTypes[idx] == aggType {
+				target = idx
+				break
+			}
+		}
 		for pIt.HasNext() {
 			slot, value := pIt.Next()
-			a.AggregateBySlot(slot, value)
+			if target < 0 {
+				// agg type not found, merge into all agg types
+				a.AggregateBySlot(slot, value)
+			} else {
+				a.aggregateBySlot(target, slot, value)
+			}
 		}
 	}
 }
 
-// AggregateBySlot aggregates the field series into current aggregator
+// AggregateBySlot aggregates the (raw)value of field series into current aggregator(all agg types).
 func (a *fieldAggregator) AggregateBySlot(slot int, value float64) {
+	for idx := range a.aggTypes {
+		a.aggregateBySlot(idx, slot, value)
+	}
+}
+
+// aggregateBySlot aggregates the value into the values of the agg type by index.
+func (a *fieldAggregator) aggregateBySlot(idx, slot int, value float64) {
 	// drop inf value
 	if math.IsInf(value, 1) {
 		return
 	}
 	pos := slot - a.start
-	for idx, aggType := range a.aggTypes {
-		values := a.fieldSeriesList[idx]
-		if values == nil {
-			values = collections.NewFloatArray(a.end - a.start + 1)
-			values.SetValue(pos, value)
-			a.fieldSeriesList[idx] = values
+	values := a.fieldSeriesList[idx]
+	if values == nil {
+		values = collections.NewFloatArray(a.end - a.start + 1)
+		values.SetValue(pos, value)
+		a.fieldSeriesList[idx] = values
+	} else {
+		// slot too large for last family
+		if values.HasValue(pos) {
+			values.SetValue(pos, a.aggTypes[idx].Aggregate(values.GetValue(pos), value))
 		} else {
-			// slot too large for last family
-			if values.HasValue(pos) {
-				values.SetValue(pos, aggType.Aggregate(values.GetValue(pos), value))
-			} else {
-				values.SetValue(pos, value)
-			}
+			values.SetValue(pos, value)
 		}
 	}
 }
